@@ -2,6 +2,20 @@
 """Imports confirmed seeded changes from /tmp/seeded-out into /verif/seeded/<prop>-<variant>/."""
 import json, os, re, shutil, sys
 SUMMARY = {
+ "C01-E": ("clear_no_drop 'sparse clear' for tables >= 2^18 buckets resets only non-empty groups and forgets the mirror control bytes", "a table of >= 262144 buckets cleared/drained while sparse, an occupied bucket among the first 16, keys whose probe wraps around the table end"),
+ "C02-E": ("HashTable::iter_hash_mut takes &self instead of &mut self", "type-level: safe code can hold a &T and a &mut T to one slot; no existing program changes behaviour"),
+ "C02-F": ("T: Send / T: Sync bounds dropped from the unsafe impls for RawIntoIter and RawDrain", "type-level: non-Send elements can cross threads through into_iter()/drain()"),
+ "C03-E": ("clone_from's resize branch allocates the new buckets from the source's allocator", "clone_from between two collections on different allocator instances with different bucket counts"),
+ "C03-F": ("new fold overrides on RawIntoIter/RawDrain run on a clone of the inner iterator and set items = 0 afterwards", "a panic in the consumer of into_iter()/drain().for_each/fold, or a Hash panic in dst.extend(src_map): yielded elements are dropped again"),
+ "C04-E": ("RawIntoIter::fold override that is not unwind-safe", "Hash panic of the destination during dst.extend(src_map)/from_iter(src_map), or a panicking into_iter().for_each closure"),
+ "C04-F": ("RawDrain::fold override that keeps items in sync but never advances the range position", "dst.extend(src.drain()) with a Hash panic, or a panicking drain().for_each closure"),
+ "C06-E": ("clear_no_drop sparse path for tables >= 2^20 buckets forgets the mirror control bytes", "clear/drain of a sparse table of >= 2^20 buckets, then a lookup that wraps around the table end"),
+ "C09-E": ("RawDrain drains the table in place (items = 0 at creation) instead of moving it out and back", "a Drain that is mem::forget-ten, then an insert: iterators yield stale moved-out elements"),
+ "C10-E": ("RawExtractIf::next scans with a local clone of the iterator and writes it back only on normal exits", "a predicate that panics, after which the same ExtractIf object is driven further: elements are offered to the predicate twice"),
+ "C10-F": ("new RawDrain::fold runs on a clone of the iterator and zeroes items afterwards", "drain().for_each/fold/extend with a consumer that panics: every element is dropped again"),
+ "C13-E": ("reserve_rehash calls resize(buckets) instead of rehashing in place when element storage is >= 16 MiB", "tombstone saturation of a table whose element storage is >= 16 MiB: the allocation doubles every time"),
+ "C14-E": ("RawEntryMut::insert on an occupied entry also replaces the stored key (insert_key)", "raw_entry_mut().from_key(..).insert(k, v) on a present key with a key type whose instances can be told apart"),
+ "C19-E": ("RawIterRange::split cuts ranges of >= 4096 groups at a block boundary; a tie rounds up to an empty tail that re-reads its sibling's first group", "tables of >= 2^17 buckets (2^16 portable) driven by a pool of >= 2 threads"),
  "C05-C": ("RawTable::insert reuses the slot found before reserve(1) when the table was rehashed in place", "broken hashing only: a stored key that reports a different hash during the in-place rehash is moved into the pending insert's EMPTY slot and overwritten (len one larger than FULL buckets)"),
  "C07-C": ("ptr::eq fast paths in eq/is_subset/is_disjoint; the is_disjoint one returns false", "the same (empty) set object passed on both sides"),
  "C07-D": ("get_or_insert_with downgrades its equivalence assert! to debug_assert!", "release builds only (no debug assertions): a non-equivalent value is stored"),
